@@ -187,3 +187,38 @@ Theorem C19_copy_leaves_the_rest : forall n m s d a, wf_mem m -> 0 <= s < 65536 
   mem_read (copy m s d n) a = mem_read m a.
 Proof. exact copy_outside. Qed.
 Print Assumptions C19_copy_leaves_the_rest.
+
+(* ---- a routine that calls another routine: chr (register convention) calls malloc --------------------------- *)
+From Hera.Proofs Require Import C19_Chr.
+
+(* in ANY program map that holds chr's instructions at cbase and malloc's at mbase (only valid instructions
+   anywhere), for every state whose frame cells FP+0..FP+5 lie outside the heap: chr(c) returns in R1 a fresh block
+   of the allocator (one [alloc] step of size 2) holding the string [1; c]; it returns to PC_ret with FP and SP
+   restored, R2..R8 unchanged, and writes only the heap pointer, the block and its frame cells.  The callee's
+   contract ([malloc_reg_core], proved on malloc's own instruction list) is reused inside the caller's run. *)
+Theorem C19_chr_reg_contract : forall prog cbase mbase s p q,
+  contains prog cbase (chr_reg_code mbase) -> contains prog mbase malloc_reg_code ->
+  (forall a i, prog a = Some i -> valid_instr i = true) ->
+  0 <= cbase -> cbase + 24 < 65536 -> 0 <= mbase < 65536 ->
+  List.length (regs s) = 16%nat -> pc s = cbase -> getreg s 0 = 0 ->
+  word (getreg s 1) -> word (getreg s 2) -> word (getreg s 12) -> word (getreg s 13) -> word (getreg s 15) ->
+  wf_mem (mem s) -> heap_ok (mem_read (mem s) heap_cell) ->
+  (forall k, 0 <= k <= 5 -> (getreg s 14 + k) mod 65536 < heap_cell \/ heap_end <= (getreg s 14 + k) mod 65536) ->
+  alloc (mem_read (mem s) heap_cell) 2 = Some (p, q) ->
+  exists n s', run_in prog n s = Some s' /\
+    getreg s' 1 = p /\ mem_read (mem s') p = 1 /\ mem_read (mem s') (p + 1) = getreg s 1 /\
+    mem_read (mem s') heap_cell = q /\
+    pc s' = getreg s 13 /\ getreg s' 14 = getreg s 12 /\ getreg s' 15 = getreg s 15 /\ getreg s' 2 = getreg s 2 /\
+    (forall j, 3 <= j <= 8 -> getreg s' j = getreg s j) /\
+    (forall b, 0 <= b < 65536 -> b <> heap_cell -> b <> p -> b <> p + 1 ->
+       (forall k, 0 <= k <= 5 -> b <> (getreg s 14 + k) mod 65536) -> mem_read (mem s') b = mem_read (mem s) b).
+Proof. exact chr_reg_contract. Qed.
+Print Assumptions C19_chr_reg_contract.
+
+(* the premises are satisfiable: malloc at 0, chr behind it, chr(65) on an empty heap, by computation *)
+Example C19_chr_runs_somewhere :
+  let c0 := mkcore (fun j => if j =? 1 then 65 else if j =? 13 then 777 else if j =? 15 then 100 else if j =? 14 then 100 else 0)
+                   (mkmem 0 nil) 20 false false false false true in
+  exists c', crun_in demo_prog 45 c0 = Some c' /\ cr c' 1 = 16385 /\ cpc c' = 777 /\
+             map (mem_read (cmem c')) (16384 :: 16385 :: 16386 :: nil) = (16387 :: 1 :: 65 :: nil) /\ cr c' 15 = 100.
+Proof. exact chr_runs_somewhere. Qed.
